@@ -6,6 +6,7 @@ import (
 	"os"
 	"path/filepath"
 	"strings"
+	"syscall"
 	"time"
 
 	"verif/harness/fzfrun"
@@ -118,6 +119,9 @@ func sessionC20(r *vk.Run, rng *rand.Rand, wkr, idx int) {
 		return
 	}
 	defer s.Close()
+	// the oracle of this check is the preview log: a search result that is published but never handed to
+	// the terminal must not keep the session from being judged
+	s.LooseSearch = true
 	if _, ok := s.WaitQuiescent(30 * time.Second); !ok {
 		r.Inconclusive("no initial quiescence: " + s.LastWait)
 		return
@@ -161,7 +165,7 @@ func sessionC20(r *vk.Run, rng *rand.Rand, wkr, idx int) {
 				a = []string{"up", "down", "up", "down", "first", "last", "page-up"}[rng.Intn(7)]
 				kinds["move"] = true
 			case c < 7:
-				a = "put(" + []string{"a", "b", "1", "i"}[rng.Intn(4)] + ")"
+				a = "put(" + []string{"a", "b", "1", "i", " ", " "}[rng.Intn(6)] + ")"
 				kinds["query"] = true
 			case c < 8:
 				a = "backward-delete-char"
@@ -182,6 +186,16 @@ func sessionC20(r *vk.Run, rng *rand.Rand, wkr, idx int) {
 				tag = []string{"B", "C", "A"}[rng.Intn(3)]
 				a = "change-preview(" + tmpl(tag) + ")"
 				kinds["change-preview"] = true
+			case c < 13 && rng.Intn(2) == 0:
+				// hide / show through the window options (absolute, unlike toggle-preview)
+				if rng.Intn(2) == 0 {
+					a = "change-preview-window(hidden)"
+					hidden = true
+				} else {
+					a = "change-preview-window(" + []string{"nohidden", "nohidden,up,50%", "nohidden,right,40%"}[rng.Intn(3)] + ")"
+					hidden = false
+				}
+				kinds["change-preview-window"] = true
 			case c < 13:
 				a = "toggle-preview"
 				hidden = !hidden
@@ -359,10 +373,14 @@ func sessionC20(r *vk.Run, rng *rand.Rand, wkr, idx int) {
 		return
 	}
 	// end of session: no preview survives, no temp file remains
-	ending := []string{"abort", "accept", "esc"}[rng.Intn(3)]
+	ending := []string{"abort", "accept", "esc", "sigterm", "sigint"}[rng.Intn(5)]
 	switch ending {
 	case "abort":
 		s.Post("abort")
+	case "sigterm":
+		s.Signal(syscall.SIGTERM)
+	case "sigint":
+		s.Signal(syscall.SIGINT)
 	case "accept":
 		s.SendKeys("Enter")
 	default:
